@@ -895,7 +895,7 @@ def compare_with_ssh(case: Dict[str, Any], base: str) -> Tuple[str, List[Tuple[s
 
 _NOT_COMPARABLE = re.compile(
     r'(?i)canonical|tagged|\btag\b|proxyjump|challengeresponse|forwardagent|\\|\bnone\b|%|\$|~|\'|'
-    r'^\s*host[ \t=].*,|^\s*match\b.*=', re.M)
+    r'^\s*match\b.*=', re.M)
 
 
 def ssh_comparable(case: Dict[str, Any]) -> bool:
@@ -1384,6 +1384,11 @@ def oracle_users(ctx: Ctx, rng: Any, scratch: str, hist: Hist, res: OracleResult
 
 
 SSH_CORPUS: List[Dict[str, Any]] = [
+    # a comma in a Host argument is an ordinary character
+    {'cls': 'client', 'files': {'main.conf': 'Host a1,b1\n Port 2222\nHost *\n Port 22\n'},
+     'main': ['main.conf'], 'target': {'host': 'a1', 'user': None, 'port': None}, 'mode': 'resolve'},
+    {'cls': 'client', 'files': {'main.conf': 'Host a1,b1 c1\n Port 2222\nHost *\n Port 22\n'},
+     'main': ['main.conf'], 'target': {'host': 'a1,b1', 'user': None, 'port': None}, 'mode': 'resolve'},
     {'cls': 'client', 'files': {'main.conf': 'Match final\n Port 2222\nHost *\n Port 22\n'},
      'main': ['main.conf'], 'target': {'host': 'h1', 'user': None, 'port': None}, 'mode': 'resolve'},
     {'cls': 'client', 'files': {'main.conf': 'ProxyCommand=nc jump 22\n'},
